@@ -79,12 +79,45 @@ fn step_strategy() -> impl Strategy<Value = Step> {
 	]
 }
 
+/// V's justice transactions stay unconfirmed for 25-60 blocks (nobody mines them) while its fee estimate changes
+/// once or twice and the background timer (`rebroadcast_pending_claims`) fires between blocks: the schedule under
+/// which "re-issued with adequate fees" can be observed.
+fn withheld_steps() -> impl Strategy<Value = Vec<Step>> {
+	(
+		proptest::collection::vec(step_strategy(), 0..3),
+		prop_oneof![253u32..3_000, 1_000u32..20_000],
+		proptest::collection::vec((1u8..=5, proptest::bool::weighted(0.6), proptest::bool::weighted(0.2), proptest::option::weighted(0.1, 253u32..30_000), proptest::option::weighted(0.08, any::<bool>())), 8..16),
+		proptest::collection::vec(step_strategy(), 0..4),
+	)
+		.prop_map(|(head, rate, rounds, tail)| {
+			let mut v = head;
+			v.push(Step::Fee { rate });
+			for (n, rebroadcast, events, fee, reload) in rounds {
+				v.push(Step::Empty { n, deliver: true });
+				if rebroadcast {
+					v.push(Step::Rebroadcast);
+				}
+				if events {
+					v.push(Step::Events);
+				}
+				if let Some(rate) = fee {
+					v.push(Step::Fee { rate });
+				}
+				if let Some(landed) = reload {
+					v.push(Step::Reload { landed });
+				}
+			}
+			v.extend(tail);
+			v
+		})
+}
+
 fn strat(max_ops: usize, max_steps: usize) -> impl Strategy<Value = Case> {
 	(
 		(world_spec(vec![Topology::Pair]), any::<bool>(), proptest::collection::vec(op_strategy(weights()), 12..max_ops)),
 		(prop_oneof![2 => Just(0u8), 2 => Just(1u8), 4 => Just(2u8), 3 => Just(3u8)], any::<u16>(), proptest::bool::weighted(0.25)),
 		(prop_oneof![4 => Just(0u8), 2 => 1u8..8, 5 => 72u8..110], proptest::bool::weighted(0.3), 0u8..11, prop_oneof![Just(253u32), 253u32..5_000, 253u32..40_000], proptest::bool::weighted(0.8)),
-		proptest::collection::vec(step_strategy(), 2..max_steps),
+		prop_oneof![3 => proptest::collection::vec(step_strategy(), 2..max_steps).boxed(), 1 => withheld_steps().boxed()],
 	)
 		.prop_map(|((mut spec, x_funder, mut ops), (k_bias, k_pick, img_first), (advance, disconnect, v_style, v_fee, tk_deliver), steps)| {
 			spec.deferred = false;
@@ -267,6 +300,7 @@ fn oracle_inner(c: &Case, ctx: &mut Ctx, run: &mut Run, trace: &mut Vec<String>)
 		run.sim.disconnect(v, x);
 	}
 	let mut jo = JusticeOracle::new(&run.sim, v, chan, tk.clone());
+	jo.note_estimate(0, c.v_fee);
 	// observations about get_claimable_balances (beyond the property statement: labels, never failures)
 	let mut obs: std::collections::BTreeSet<&'static str> = std::collections::BTreeSet::new();
 	// X's off-node wallet (fee inputs of anchor-type HTLC transactions) and the blocks before the cheat
@@ -341,7 +375,10 @@ fn oracle_inner(c: &Case, ctx: &mut Ctx, run: &mut Run, trace: &mut Vec<String>)
 				*run.sim.w.nodes[v].connect_style.borrow_mut() = connect_style_of(*style);
 				styles.insert(*style % 11);
 			},
-			Step::Fee { rate } => *run.sim.w.nodes[v].fee_estimator.sat_per_kw.lock().unwrap() = *rate,
+			Step::Fee { rate } => {
+				*run.sim.w.nodes[v].fee_estimator.sat_per_kw.lock().unwrap() = *rate;
+				jo.note_estimate(hb, *rate);
+			},
 			Step::Reload { landed } => {
 				// a reloaded monitor replays the chain from its own best block: it legitimately does not know
 				// about spends above that height while it re-issues claims
@@ -366,6 +403,7 @@ fn oracle_inner(c: &Case, ctx: &mut Ctx, run: &mut Run, trace: &mut Vec<String>)
 		}
 		lagged |= run.pending.len() >= 2;
 		jo.scan(&run.sim, hb)?;
+		jo.adequacy_rule(&run.sim, run.sim.c06_height_of(v))?;
 		// the ChainMonitor persists a monitor with pending claims after every chain notification (and the
 		// restart writes the reloaded one); `rebroadcast_pending_claims` and estimator changes persist nothing
 		if run.sim.c06_height_of(v) != hb || matches!(st, Step::Reload { .. }) {
@@ -468,6 +506,7 @@ fn oracle_inner(c: &Case, ctx: &mut Ctx, run: &mut Run, trace: &mut Vec<String>)
 	ctx.label_if(c.advance >= 72, "cheat-after-htlc-expiry");
 	ctx.label_if(jo.stats.reissues > 0, "v-claim-reissued");
 	ctx.label_if(jo.stats.reissues_bumped > 0, "v-claim-fee-bumped");
+	ctx.label_if(jo.stats.adequacy_checks > 0, "claim-pending-a-full-window:fee-adequacy-checked");
 	ctx.label_if(jo.stats.benign_conflicts > 0, "v-benign-conflict");
 	ctx.label_if(styles.len() > 1, "v-style-changed");
 	ctx.label(&format!("v-style:{}", c.v_style % 11));
